@@ -18,7 +18,17 @@ for p in props:
     if not os.path.exists(f):
         na.append({"property_id": pid, "reason": na_reasons.get(pid, "not claimed yet: model, theorems and correspondence harness for this property are not built in this revision")})
         continue
-    c = json.load(open(f))
+    try:
+        c = json.load(open(f))
+    except Exception:
+        c = {}
+    ready = all(k in c and c[k] and c[k] != "placeholder" for k in ("harness", "level_text", "level_note", "technique")) \
+        and os.path.exists(os.path.join(V, "coq", "Properties", pid + ".v")) \
+        and os.path.exists(os.path.join(V, "coq", "Run", pid + "_run.v")) \
+        and os.path.exists(os.path.join(V, "evidence", pid + ".json"))
+    if not ready:
+        na.append({"property_id": pid, "reason": na_reasons.get(pid, "not claimed in this revision: the model/theorems/driver for this property are still under construction")})
+        continue
     h = c["harness"]
     eng = "coq+" + (h["pkg"] if h["kind"] == "bin" else "overlay:" + h["pkg"].replace("github.com/uber/kraken/", ""))
     engines.setdefault(eng, []).append(pid)
